@@ -267,6 +267,14 @@ Theorem C15_check_fast_is_plain : forall fx unt f I vs n,
   check_all_fast fx unt f I vs n = check_all fx unt f I vs n.
 Proof. exact check_all_fast_correct. Qed.
 
+(* and that comparison ranges over EVERY sequence of n valuations of vs *)
+Theorem C15_check_is_exhaustive : forall fx unt f I vs n,
+  check_all fx unt f I vs n = true <->
+  forall trace, length trace = n ->
+    (forall bits, In bits trace -> length bits = length vs) ->
+    check_trace f (translate fx unt f) I vs n trace = true.
+Proof. exact check_all_exhaustive. Qed.
+
 Print Assumptions C15_past_exact.
 Print Assumptions C15_user_names_suffice.
 Print Assumptions C15_testers_track.
@@ -276,3 +284,4 @@ Print Assumptions C15_until_flag_irrelevant.
 Print Assumptions C15_until_partial.
 Print Assumptions C15_until_partial_exists.
 Print Assumptions C15_check_fast_is_plain.
+Print Assumptions C15_check_is_exhaustive.
